@@ -331,6 +331,13 @@ class Executor:
 
     def set_item(self, st, c, k, v, node):
         """c[k] = v ; c is a cell, or write-through `a[b][k] = v` is unsupported"""
+        if isinstance(c, VObj) and st.heap[c.oid].k == "inst" and st.heap[c.oid].cls == "$dict":
+            kk = ops.deref(st, k)
+            ck = concrete_str(kk.t) if isinstance(kk, VStr) else None
+            if ck is None:
+                raise Unsupported("computed key on a record-like dict")
+            st.heap[c.oid].fields[ck] = v
+            return [(st, NORMAL)]
         if not ops.is_cell(st, c):
             raise Unsupported(f"item assignment into a borrowed/immutable container (line {self.line(node)})")
         cell = st.heap[c.oid]
